@@ -283,7 +283,7 @@ func c10Churn() {
 func runC10(c *Ctx) Result {
 	t := c.T
 	g := &gen{t: t}
-	z := &zoo{g: g, cb: true, maxDep: 2 + g.d(2)}
+	z := &zoo{g: g, cb: true, maxDep: 2 + g.d(2), omitzero: true}
 	c10.t = t
 	c10.rate = []int{30, 100, 100, 300, 1000}[t.Draw(simrt.Knobs, 5)]
 	c10.traceBad = ""
